@@ -172,7 +172,11 @@ func genC12(m *M, budget int) {
 				if f.F[b].IsZero() == 1 {
 					f.setInt(b, big.NewInt(int64(1+f.rng.Intn(9))))
 				}
-				if f.rng.Intn(2) == 0 { // make u/v a square on purpose half of the time: u = v * t^2
+				if f.rng.Intn(3) == 0 { // numerator with boundary / structured Montgomery limbs (either square-ness)
+					w, wc := f.window()
+					f.class("sqrt_ratio:u_" + wc)
+					f.setInt(a, mulmod(new(big.Int).Mod(w, bigP), rInvP, bigP))
+				} else if f.rng.Intn(2) == 0 { // make u/v a square on purpose half of the time: u = v * t^2
 					t := f.randBig(bigP)
 					vv := new(big.Int).SetBytes(f.F[b].Bytes())
 					u := mulmod(vv, mulmod(t, t, bigP), bigP)
@@ -253,7 +257,31 @@ func genC12(m *M, budget int) {
 // wide48 returns a 48-byte string from the classes of DESIGN C09 (ii).
 func (f *FM) wide48() []byte {
 	out := make([]byte, 48)
-	switch f.rng.Intn(8) {
+	switch f.rng.Intn(11) {
+	case 8, 9, 10: // hi * 2^256 + lo whose first fold  lo + hi * (2^256 mod m)  lands next to 2^256 (a carry at the edge)
+		mod := []*big.Int{bigP, bigN}[f.rng.Intn(2)]
+		c := new(big.Int).Sub(bigR, mod)
+		hi := f.randBig(new(big.Int).Lsh(one, 128))
+		if f.rng.Intn(3) == 0 {
+			hi = new(big.Int).Sub(new(big.Int).Lsh(one, 128), big.NewInt(int64(1+f.rng.Intn(5))))
+		}
+		var delta *big.Int
+		switch f.rng.Intn(3) {
+		case 0:
+			delta = big.NewInt(int64(f.rng.Intn(1 << 20)))
+		case 1:
+			delta = f.randBig(c)
+		default:
+			delta = f.randBig(new(big.Int).Lsh(c, 1))
+		}
+		if f.rng.Intn(2) == 0 {
+			delta.Neg(delta) // just above 2^256 instead of just below
+		}
+		lo := new(big.Int).Mul(hi, c)
+		lo.Add(lo, delta).Neg(lo).Mod(lo, bigR) // lo = -(delta + hi c) mod 2^256
+		v := new(big.Int).Lsh(hi, 256)
+		v.Add(v, lo)
+		v.FillBytes(out)
 	case 0:
 		for i := range out {
 			out[i] = 0xff
@@ -341,6 +369,13 @@ func genC11(m *M, budget int) {
 			default:
 				u, cls = f.randBig(bigP), "random"
 			}
+			if i%12 >= 9 {
+				// u for which the intermediate  tv2 = Z^2 u^4 + Z u^2  has boundary / structured Montgomery limbs (the
+				// exceptional-case test looks at exactly this value): solve  Z^2 v^2 + Z v - w = 0  for v = u^2
+				if uu := f.solveTv2(); uu != nil {
+					u, cls = uu, "tv2_structured"
+				}
+			}
 			i++
 			_, _, first := sswuRef(u)
 			f.class("u:" + cls)
@@ -352,6 +387,16 @@ func genC11(m *M, budget int) {
 			f.emitF("MSswu", kv{"a", 1}, kv{"x", x}, kv{"y", y})
 			r := secp256k1.IsogenySecp256k13iso(q)
 			f.emitF("MIso", kv{"x", x}, kv{"y", y}, kv{"res", f.resultObs(r)})
+			if secp256k1.VerifAccessor && j%5 == 4 {
+				if sx, sy := f.structuredXDenPoint(); sx != nil {
+					e := secp256k1.NewElement()
+					xl, yl, zl := secp256k1.VerifLimbs(e)
+					*xl, *yl, *zl = montLimbs(sx, bigP), montLimbs(sy, bigP), montLimbs(one, bigP)
+					r2 := secp256k1.IsogenySecp256k13iso(e)
+					f.class("iso:x_den_structured")
+					f.emitF("MIso", kv{"x", be32(sx)}, kv{"y", be32(sy)}, kv{"res", f.resultObs(r2)})
+				}
+			}
 			// the isogeny on other points of E' (sums of mapped points), when raw coordinates can be written
 			if secp256k1.VerifAccessor && j%3 == 2 {
 				u2 := f.randBig(bigP)
@@ -368,6 +413,61 @@ func genC11(m *M, budget int) {
 			}
 		}
 	}
+}
+
+// solveTv2 returns u with Z^2 u^4 + Z u^2 = w for a structured w, or nil.
+func (f *FM) solveTv2() *big.Int {
+	for try := 0; try < 40; try++ {
+		var wm *big.Int
+		if f.rng.Intn(2) == 0 {
+			wm = f.limbStruct()
+		} else {
+			wm, _ = f.window()
+		}
+		w := mulmod(new(big.Int).Mod(wm, bigP), rInvP, bigP) // the value whose Montgomery form is wm
+		// v = (-1 +- sqrt(1 + 4w)) / (2Z)
+		d := new(big.Int).Lsh(w, 2)
+		d.Add(d, one).Mod(d, bigP)
+		sq := new(big.Int).ModSqrt(d, bigP)
+		if sq == nil {
+			continue
+		}
+		if f.rng.Intn(2) == 0 {
+			sq.Sub(bigP, sq)
+		}
+		num := new(big.Int).Sub(sq, one)
+		den := new(big.Int).ModInverse(new(big.Int).Mod(new(big.Int).Lsh(sswuZ, 1), bigP), bigP)
+		v := mulmod(new(big.Int).Mod(num, bigP), den, bigP)
+		if u := new(big.Int).ModSqrt(v, bigP); u != nil {
+			return u
+		}
+	}
+	return nil
+}
+
+// structuredXDenPoint returns a point (x, y) of E' whose isogeny x-denominator x^2 + k21 x + k20 has structured
+// Montgomery limbs (the zero test of the isogeny looks at exactly this value), or nil.
+func (f *FM) structuredXDenPoint() (*big.Int, *big.Int) {
+	k20, _ := new(big.Int).SetString("d35771193d94918a9ca34ccbb7b640dd86cd409542f8487d9fe6b745781eb49b", 16)
+	k21, _ := new(big.Int).SetString("edadc6f64383dc1df7c4b2d51b54225406d36b641f5e41bbc52a56612a8c6d14", 16)
+	inv2 := new(big.Int).ModInverse(two, bigP)
+	for try := 0; try < 60; try++ {
+		w := mulmod(new(big.Int).Mod(f.limbStruct(), bigP), rInvP, bigP)
+		// x^2 + k21 x + (k20 - w) = 0
+		disc := mulmod(k21, k21, bigP)
+		t := new(big.Int).Sub(k20, w)
+		disc.Sub(disc, new(big.Int).Lsh(t, 2)).Mod(disc, bigP)
+		sq := new(big.Int).ModSqrt(disc, bigP)
+		if sq == nil {
+			continue
+		}
+		x := new(big.Int).Sub(sq, k21)
+		x = mulmod(new(big.Int).Mod(x, bigP), inv2, bigP)
+		if y := new(big.Int).ModSqrt(gIso(x), bigP); y != nil {
+			return x, y
+		}
+	}
+	return nil, nil
 }
 
 // genC09w: the scalar field's wide reduction on chosen 48-byte strings (DESIGN C09 (ii)).
@@ -387,7 +487,52 @@ func genC09w(m *M, budget int) {
 	}
 }
 
+// genC11f: the field primitives the map is composed of (zero / equality tests, sqrt_ratio, inversion, conditional
+// move) on boundary and structured operands -- the map is total and exact on EVERY field element only if they are.
+func genC11f(m *M, budget int) {
+	f := &FM{M: m}
+	for f.events < budget {
+		f.reset()
+		for i := 0; i < 14; i++ {
+			w, wc := f.window()
+			if f.rng.Intn(2) == 0 {
+				w, wc = f.limbStruct(), "limb_struct"
+			}
+			f.class("operand:" + wc)
+			f.setInt(0, mulmod(new(big.Int).Mod(w, bigP), rInvP, bigP))
+			f.put(1)
+			if f.F[1].IsZero() == 1 {
+				f.setInt(1, big.NewInt(3))
+			}
+			switch i % 5 {
+			case 0:
+				f.emitF("FIsZero", kv{"a", 1}, kv{"ret", clamp(f.F[0].IsZero())})
+			case 1:
+				f.emitF("FEquals", kv{"a", 1}, kv{"b", 2}, kv{"ret", clamp(f.F[0].Equals(f.F[1]))})
+				f.F[2].Set(f.F[0])
+				f.emitF("FSet", kv{"d", 3}, kv{"a", 1})
+				f.emitF("FEquals", kv{"a", 1}, kv{"b", 3}, kv{"ret", clamp(f.F[0].Equals(f.F[2]))})
+			case 2:
+				_, flag := f.F[2].SqrtRatio(f.F[0], f.F[1])
+				f.emitF("FSqrtRatio", kv{"d", 3}, kv{"a", 1}, kv{"b", 2}, kv{"ret", clamp(flag)})
+			case 3:
+				f.F[2].Invert(*f.F[0])
+				f.emitF("FInvert", kv{"d", 3}, kv{"a", 1})
+			default:
+				f.F[2].Negate(f.F[0])
+				f.emitF("FNeg", kv{"d", 3}, kv{"a", 1})
+				f.emitF("FSgn0", kv{"a", 3}, kv{"ret", clamp(f.F[2].Sgn0())})
+			}
+		}
+	}
+}
+
 func init() {
+	gens["C11f"] = func(m *M, pick func(q, t int) int, shards int) {
+		total := pick(700, 20000)
+		perFile(m, total, shards)
+		genC11f(m, total)
+	}
 	simple := func(g func(*M, int), q, t int) gen {
 		return func(m *M, pick func(q, t int) int, shards int) {
 			total := pick(q, t)
